@@ -79,3 +79,40 @@ pub fn rewriter(v: Violation) -> Box<dyn FnMut(i64, &'static str, u64, &[u8]) ->
         Some(out)
     })
 }
+
+/// a peer may legitimately retransmit frames: every RETIRE_CONNECTION_ID / NEW_CONNECTION_ID frame that reaches the endpoint
+/// is delivered once more, appended to a later packet of the same connection (the peer itself is untouched)
+pub fn duplicator() -> Box<dyn FnMut(i64, &'static str, u64, &[u8]) -> Option<Vec<u8>> + Send> {
+    use s2n_codec::EncoderValue;
+    let mut pending: Vec<(u32, Vec<u8>)> = Vec::new(); // (packets to wait, frame bytes)
+    Box::new(move |conn, sp, _pn, payload| {
+        if conn != 0 || sp != "a" {
+            return None;
+        }
+        let mut due: Vec<Vec<u8>> = Vec::new();
+        for p in pending.iter_mut() {
+            if p.0 == 0 { due.push(std::mem::take(&mut p.1)); } else { p.0 -= 1; }
+        }
+        pending.retain(|p| !p.1.is_empty());
+        let mut copy = payload.to_vec();
+        let mut buf = DecoderBufferMut::new(&mut copy);
+        while !buf.is_empty() {
+            let Ok((f, rest)) = buf.decode::<FrameMut>() else { break };
+            match &f {
+                FrameMut::RetireConnectionId(x) => pending.push((2, x.encode_to_vec())),
+                FrameMut::NewConnectionId(x) => pending.push((3, x.encode_to_vec())),
+                _ => {}
+            }
+            buf = rest;
+        }
+        if due.is_empty() {
+            return None;
+        }
+        let mut out = payload.to_vec();
+        for d in due {
+            crate::common::emit(serde_json::json!({"ev": "frame_duplicated", "len": d.len()}));
+            out.extend(d);
+        }
+        Some(out)
+    })
+}
